@@ -249,7 +249,7 @@ def numeric32_archive(ctx_id):
     ar.add(**items)
     return ar, list(items), items
 
-def build_archive(rng, ctx_id, labels=LABELS):
+def build_archive(rng, ctx_id, labels=LABELS, first=None):
     """a random session in Context(id=ctx_id) and an Archive holding a random selection of its objects.
     Returns (archive, description, {tag: object})."""
     from GTC import core, archive as garchive
@@ -308,10 +308,21 @@ def build_archive(rng, ctx_id, labels=LABELS):
     ar = garchive.Archive()
     used = set(); items = {}
     cands = [('r', x) for x in reals] + [('c', x) for x in cplx] + [('i', x) for x in inter] + [('ci', x) for x in cinter]
-    rng.shuffle(cands)
-    keep = cands[:max(1, rng.randint(1, len(cands)))]
+    order = list(range(len(cands))); rng.shuffle(order)
+    chosen = order[:max(1, rng.randint(1, len(cands)))]
+    if first is not None:
+        # creation order: an entry never depends on an intermediate result that is filed after it, so splitting the entries
+        # does not change what freezing keeps (components with respect to intermediates that are not archived are dropped)
+        chosen = sorted(chosen)
+    keep = [cands[i] for i in chosen]
     for kind, obj in keep:
         items[rand_tag(rng, used)] = obj
+    # first='half': only the first half of the entries goes in now; the caller adds desc['_rest'] later (second generation)
+    all_items = items
+    if first == 'half':
+        n1 = max(1, len(items) // 2)
+        desc['_rest'] = dict(list(items.items())[n1:])
+        items = dict(list(items.items())[:n1])
     # half through add(**kw), half through item assignment
     if rng.random() < 0.5:
         try:
@@ -328,6 +339,7 @@ def build_archive(rng, ctx_id, labels=LABELS):
     else:
         for k, v in items.items():
             ar[k] = v
+    items = all_items
     desc['tags'] = list(items); desc['kinds'] = [k for k, _ in keep]
     return ar, desc, items
 
